@@ -1,8 +1,8 @@
 // d2vh — correspondence harness: runs the real d2 code (built from /repo's working tree with
 // -tags verif) on generated inputs and writes one JSON line per case for the Lean driver.
 //
-//	d2vh <Cxx> --seed N --tier quick|thorough --out ops.jsonl [--replay file] [--search]
-package main
+//	<cxx> --seed N --tier quick|thorough --out ops.jsonl [--replay file] [--search]
+package hl
 
 import (
 	"bufio"
@@ -10,7 +10,6 @@ import (
 	"flag"
 	"fmt"
 	"os"
-	"sort"
 )
 
 type Ctx struct {
@@ -49,21 +48,8 @@ func (c *Ctx) Pick(q, t int) int {
 	return t
 }
 
-var registry = map[string]func(*Ctx) error{}
-
-func register(id string, f func(*Ctx) error) { registry[id] = f }
-
-func main() {
-	if len(os.Args) < 2 {
-		ids := []string{}
-		for k := range registry {
-			ids = append(ids, k)
-		}
-		sort.Strings(ids)
-		fmt.Println("usage: d2vh <Cxx> [flags]; known:", ids)
-		os.Exit(2)
-	}
-	id := os.Args[1]
+// Main parses the common flags and runs f; every per-property harness is `func main() { hl.Main("Cxx", run) }`.
+func Main(id string, f func(*Ctx) error) {
 	fs := flag.NewFlagSet("d2vh", flag.ExitOnError)
 	seed := fs.Int64("seed", 1, "PRNG seed")
 	tier := fs.String("tier", "quick", "quick|thorough")
@@ -71,12 +57,7 @@ func main() {
 	replay := fs.String("replay", "", "replay file")
 	search := fs.Bool("search", false, "search budget")
 	work := fs.String("work", "", "scratch dir")
-	fs.Parse(os.Args[2:])
-	f, ok := registry[id]
-	if !ok {
-		fmt.Fprintln(os.Stderr, "unknown property", id)
-		os.Exit(2)
-	}
+	fs.Parse(os.Args[1:])
 	w := os.Stdout
 	if *out != "-" {
 		var err error
